@@ -49,6 +49,17 @@ _hunt = {'{{HUNT_TOTAL}}': len(_disp), '{{HUNT_FIXED}}': _n('fixed', 'partly fix
 _rest = len(_disp) - sum(v for k, v in _hunt.items() if k not in ('{{HUNT_TOTAL}}', '{{HUNT2_COUNT}}'))
 if _rest:
     print('note: %d dispositions not classified' % _rest)
+_tt = ''
+_sp = os.path.join(ROOT, 'notes', 'design', 'thorough_summary.txt')
+if os.path.exists(_sp):
+    rows = []
+    for l in open(_sp):
+        m = _re.match(r'(C\d\d) exit=(\d+) wall=(\d+)s .*cases=(\d+) evaluations=(\d+) distinct_nontrivial=(\d+) violations=(\d+) known_hits=(\d+) inconclusive=(\d+)', l)
+        if m:
+            rows.append(m.groups())
+    rows.sort()
+    _tt = '| check | exit | wall s | cases | evaluations | distinct non-trivial | violations | known-finding hits | unjudged |\n|---|---|---|---|---|---|---|---|---|\n' + '\n'.join('| ' + ' | '.join(r) + ' |' for r in rows)
+out = out.replace('{{THOROUGH_TABLE}}', _tt or '(see build/thorough/SUMMARY.txt)')
 for k, v in _hunt.items():
     out = out.replace(k, str(v))
 for k, v in {'{{NTOTAL}}': len(ents), '{{NOPEN}}': nopen, '{{NFIXED}}': len(ents) - nopen, '{{NFIXCOMMITS}}': nfix}.items():
